@@ -28,7 +28,12 @@ func init() {
 type c19Cfg struct {
 	Kind string `json:"kind"` // plain, filters, cors, options, encoding
 	JSR  bool   `json:"jsr311"`
+	// Once: the router is set only once (the reference containers; the containers under test set
+	// the other router first)
+	Once bool `json:"-"`
 }
+
+func (c c19Cfg) ref() c19Cfg { c.Once = true; return c }
 
 var c19Kinds = []string{"plain", "filters", "cors", "options", "encoding"}
 
@@ -54,10 +59,14 @@ func c19Build(cfg c19Cfg) *restful.Container {
 	c := restful.NewContainer()
 	// the router is always set twice: the other one first (what it leaves behind must not matter)
 	if cfg.JSR {
-		c.Router(restful.CurlyRouter{})
+		if !cfg.Once {
+			c.Router(restful.CurlyRouter{})
+		}
 		c.Router(restful.RouterJSR311{})
 	} else {
-		c.Router(restful.RouterJSR311{})
+		if !cfg.Once {
+			c.Router(restful.RouterJSR311{})
+		}
 		c.Router(restful.CurlyRouter{})
 	}
 	// every configuration: a container filter that turns request headers into attributes - one
@@ -317,7 +326,7 @@ func replayC19(detail json.RawMessage) error {
 	}
 	cleanPackageState()
 	rs.Quiet(false)
-	fresh := c19Do(c19Build(c.Cfg), q[c.Seq[len(c.Seq)-1]], c.Serve)
+	fresh := c19Do(c19Build(c.Cfg.ref()), q[c.Seq[len(c.Seq)-1]], c.Serve)
 	fmt.Printf("fresh container (trace off): %s\n", fresh)
 	if got != fresh {
 		return fmt.Errorf("response depends on history / trace setting")
@@ -328,7 +337,7 @@ func replayC19(detail json.RawMessage) error {
 func c19Cfgs(tier string) []c19Cfg {
 	var out []c19Cfg
 	for _, k := range c19Kinds {
-		out = append(out, c19Cfg{k, false}, c19Cfg{k, true})
+		out = append(out, c19Cfg{Kind: k}, c19Cfg{Kind: k, JSR: true})
 	}
 	return out
 }
@@ -390,7 +399,7 @@ func c19RunShard(tier string, cfg c19Cfg, serve, trace bool) c19ShardOut {
 	for i := range q {
 		cleanPackageState()
 		rs.Quiet(false)
-		k := c19Do(c19Build(cfg), q[i], serve)
+		k := c19Do(c19Build(cfg.ref()), q[i], serve)
 		fresh[i] = k
 		out.Outcomes = append(out.Outcomes, k)
 		if !trace && strings.Contains(k, "CHANGED-") {
